@@ -14,6 +14,7 @@ import (
 var (
 	identRegexp          = regexp.MustCompile(`^\[.*\]$`)
 	ErrInvalidIdentifier = errors.New("fatal: invalid identifier")
+	ErrInvalidConfig     = errors.New("fatal: bad config line")
 )
 
 type kv map[string]string
@@ -78,14 +79,26 @@ func (c *Config) load(configPath string, isGlobal bool) error {
 				c.local[ident] = make(kv)
 			}
 		} else {
-			splitText := strings.Split(strings.Replace(text, "\t", "", -1), "=")
+			text = strings.Replace(text, "\t", "", -1)
+			if strings.TrimSpace(text) == "" {
+				continue
+			}
+			// the value is everything after the first '=': it may contain '=' itself
+			splitText := strings.SplitN(text, "=", 2)
+			if len(splitText) != 2 {
+				return ErrInvalidConfig
+			}
 			key := strings.TrimSpace(splitText[0])
 			value := strings.TrimSpace(splitText[1])
+			kvs := c.local
 			if isGlobal {
-				c.global[ident][key] = value
-			} else {
-				c.local[ident][key] = value
+				kvs = c.global
 			}
+			// a key line must belong to a section
+			if _, ok := kvs[ident]; !ok {
+				return ErrInvalidConfig
+			}
+			kvs[ident][key] = value
 		}
 	}
 
